@@ -130,6 +130,11 @@ def plan(tier):
         if n >= 5:
             h.parallel = True
         jobs.append((h, {}))
+    if q:
+        h = InverseCircuit(n=3, mode="core")
+        h.parallel = True
+        h.partial_ok = True
+        jobs.append((h, {"time_budget": 60, "chunk_paths": 16, "chunk_s": 8.0}))
     if not q:
         h = InverseCircuit(n=3, mode="core")
         h.parallel = True
